@@ -28,20 +28,50 @@ def _flat(events):
     return out
 
 
+def _innermost(e):
+    while e and e[0] == "each":
+        e = e[2]
+    return e
+
+
 def rule_identifier_table(ck: Check, repo: Repo) -> None:
     r = ck.rule("R1", "per-identifier table: ids = {id, strip_plus(id)}; bad ⇔ ids∩map=∅; missing ⇔ ids∩provided=∅; always recorded")
     q = f"{RP}.FileReport.generate"
     fn = repo.func(q)
     ck.analysed_fn(q)
 
+    STRIP = "_strip_plus_from_identifier(identifier)"
+
+    def stripped(base: str):
+        """x ∈ base for x = strip_plus(id): equals the plain membership when the id has no '+'."""
+        return ("or", ("and", "has_plus", f"{base}_stripped"), ("and", ("not", "has_plus"), f"{base}_id"))
+
     class H(Hooks):
+        """Atoms are semantic: has_plus, map_id / map_stripped (id resp. strip_plus(id) on the licence map),
+        provided_id / provided_stripped (… has a LICENSES/ file).  Equivalent spellings map to the same formula."""
+
         def atom(self, text, node, it):
-            if text == WALRUS or text == "_strip_plus_from_identifier(identifier) != identifier":
+            if text in (WALRUS, f"{STRIP} != identifier", f"identifier != {STRIP}", "identifier.endswith('+')"):
                 return "has_plus"
-            if text == "{identifier}.intersection(project.license_map)":
-                return "in_map"
-            if text == "{identifier}.intersection(project.licenses)":
-                return "provided"
+            if text in (f"{STRIP} == identifier", f"identifier == {STRIP}"):
+                return ("not", "has_plus")
+            for coll, base in (("project.license_map", "map"), ("project.licenses", "provided")):
+                added = any(e[-1] == ("ids-add", STRIP) or (e[0] == "each" and e[2] == ("ids-add", STRIP)) or
+                            _innermost(e) == ("ids-add", STRIP) for e in it.events)
+                if text in (f"{{identifier}}.intersection({coll})", f"identifiers.intersection({coll})",
+                            f"any((i in {coll} for i in {{identifier}}))", f"{{identifier}} & set({coll})",
+                            f"{{identifier}} & {coll}.keys()"):
+                    return ("or", f"{base}_id", f"{base}_stripped") if added else f"{base}_id"
+                if text in (f"{{identifier, {STRIP}}}.intersection({coll})", f"{{{STRIP}, identifier}}.intersection({coll})"):
+                    return ("or", f"{base}_id", stripped(base))
+                if text == f"identifier in {coll}":
+                    return f"{base}_id"
+                if text == f"identifier not in {coll}":
+                    return ("not", f"{base}_id")
+                if text == f"{STRIP} in {coll}":
+                    return stripped(base)
+                if text == f"{STRIP} not in {coll}":
+                    return ("not", stripped(base))
             return None
 
         def event(self, text, call, it):
@@ -64,10 +94,14 @@ def rule_identifier_table(ck: Check, repo: Repo) -> None:
          "each identifier in _LICENSING.license_keys(expression)::"
 
     def ref(v: Valuation):
-        return {"has_plus": v(ID + "has_plus"), "in_map": v(ID + "in_map"), "provided": v(ID + "provided")}
+        p = v(ID + "has_plus")
+        on_map = v(ID + "map_id") or (p and v(ID + "map_stripped"))
+        prov = v(ID + "provided_id") or (p and v(ID + "provided_stripped"))
+        return {"has_plus": p, "bad": not on_map, "missing": not prov}
 
     leaves = tabulate(fn, H(), ref)
     n = 0
+    seen = set()
     for d, leaf, spec in leaves:
         if leaf.outcome[0] != "return":
             continue
@@ -75,28 +109,28 @@ def rule_identifier_table(ck: Check, repo: Repo) -> None:
         ctx3 = ("each reuse_info", "each expression", "each identifier")
         ev = [e for c, e in _flat(leaf.events) if c == ctx3]
         keys = [e for c, e in _flat(leaf.events) if e[0] == "keys-of"]
-        name = show_valuation(spec)
+        cell = {k.split("::")[-1]: v for k, v in d.items() if k.startswith(ID)}
+        name = show_valuation(cell)
         r.instance("cell:" + name + "|" + show_valuation({k: v for k, v in d.items() if "::" not in k}),
                    {"cell": name, "effects": [repr(e) for e in ev]})
-        want = []
-        if spec["has_plus"]:
-            want.append(("ids-add", "_strip_plus_from_identifier(identifier)"))
-        if not spec["in_map"]:
-            want.append(("bad_licenses", "identifier"))
-        if not spec["provided"]:
-            want.append(("missing_licenses", "identifier"))
-        want.append(("record", "identifier"))
-        got = [e for e in ev if e[0] != "element-end"]
-        if got != want:
-            r.violation(q, f"identifier cell [{name}]", f"effects {got}, the specification says {want}", repo.loc(fn),
-                        {"cell": spec})
+        got = {"bad": ("bad_licenses", "identifier") in ev, "missing": ("missing_licenses", "identifier") in ev}
+        free = [k for k in cell if k.startswith("?")]
+        for cat in ("bad", "missing"):
+            if got[cat] != spec[cat] and (cat, name) not in seen:
+                seen.add((cat, name))
+                r.violation(q, f"{cat} classification in cell [{name}]",
+                            f"identifier is {'' if got[cat] else 'not '}reported {cat}; the specification says it is"
+                            f" {'' if spec[cat] else 'not '}{cat} (ids = {{id, strip_plus(id)}} against the"
+                            f" {'licence map' if cat == 'bad' else 'LICENSES/ inventory'})"
+                            + (f"; unrecognised condition {free[0]}" if free else ""), repo.loc(fn), {"cell": cell})
+        if ("record", "identifier") not in ev and ("record", name) not in seen:
+            seen.add(("record", name))
+            r.violation(q, f"identifier not recorded in cell [{name}]", "every identifier must be appended to licenses_in_file",
+                        repo.loc(fn))
         if not keys or keys[0][1] != "expression":
             r.violation(q, "identifier source", "identifiers must be all license_keys of every expression of every source",
                         repo.loc(fn))
     r.floor(8, "identifier cells", got=n)
-    src = ast.unparse(fn)
-    if "identifiers = {identifier}" not in src:
-        r.violation(q, "identifier set initialisation", "ids must start as {identifier}", repo.loc(fn))
     # helper tables
     for hq, plus in (("reuse._util._strip_plus_from_identifier", False), ("reuse._util._add_plus_to_identifier", True)):
         h = repo.func(hq)
